@@ -19,8 +19,9 @@ CFG = {
             "line, distinct by its parameters",
     "trusted_base": ["the trace conditions checked by the driver for post schedules (per-poster order, no duplicate, nothing invented, no blocking post "
                      "missing) are the observable consequences of the queue LTS",
-                     "replayTrace: parser steps, the terminal's reply and the application's receives have no yield point and are hidden labels (weak trace "
-                     "inclusion, searched over two schedules of the hidden labels: lazy and eager)",
+                     "replayTrace: the parser's rune steps, the terminal's reply and the application's receives have no yield point and are hidden labels (weak trace "
+                     "inclusion, searched over two schedules of the hidden labels: lazy and eager); round 4: the three steps of the tail of Parser.run (loop left / EOF emitted / channel closed) ARE recorded "
+                     "(C08's verifSched points 20 / 25 / 29) and replayed as labels (a trace that does not replay with them because of a cross-goroutine order flip is replayed once more without them)",
                      "`close(p.sequences); p.closed <- true` is one step of the parser in the LTS (the `!ok` arm of WaitClose is then the same step as its `closed` arm)",
                      "stack-dump classification of library goroutines (ansi.(*Parser).run, openTty.func1); bounds 3 s / 0.7 s for 'returns'",
                      "Go race detector (supporting evidence only; a reported race is treated as a violation)"],
